@@ -153,7 +153,7 @@ func (m *manager) hasLocatorInCache(group module.TransactionGroup, id []byte, ts
 	if _, ok := m.locators[string(id)]; ok {
 		return ok, true
 	}
-	if l := m.cache[group].maxTSInDB; l != 0 && l <= ts {
+	if l := m.cache[group].maxTSInDB; l != 0 && l < ts {
 		return false, true
 	}
 	return false, false
